@@ -152,7 +152,7 @@ class C03(Check):
             "(sampler class, dims, op-kind sequence, space)")
     assumptions = ["all nine built-in samplers, SearchSpace, digitize_data: real code; sklearn/xgboost/scipy real, forced single-threaded",
                    "third-party numerical failures (singular GP, SLSQP) end the op sequence and are counted, not judged"]
-    quick = {"runs": 1400, "wall": 50, "item_timeout": 40}
+    quick = {"runs": 3000, "wall": 150, "item_timeout": 120}
     thorough = {"runs": 60000, "wall": 900, "item_timeout": 90}
 
     def gen(self, rng, tier, i):
